@@ -49,7 +49,244 @@ func init() {
 		}
 		return L(out...)
 	}
+	// widening: the exported tables of bitmap/mask.go; an index outside the array panics (P)
+	Exec["bitmap.Mask"] = func(a []V) string {
+		i := a[0].Int()
+		return L(U(bitmap.Mask[i]), U(bitmap.RMask[i]))
+	}
+	Exec["bitmap.Bit"] = func(a []V) string {
+		i := a[0].Int()
+		return L(U(bitmap.MaskUpto[i]), U(bitmap.RMaskUpto[i]), U(bitmap.Bit[i]), U(bitmap.RBit[i]))
+	}
+	// widening: bitmap.Fmt on every integer kind, single value or slice; sz outside {1,2,4,8} = a non-integer type
+	Exec["bitmap.Fmt/c12"] = func(a []V) string {
+		return Str(bitmap.Fmt(c12FmtArg(a[0].Int(), a[1].Bool(), a[2].Bool(), a[3].L)))
+	}
+	// widening: OfMany(subs, sizes) against Of(shifted concatenation, sum of sizes); only the relation is observed
+	Exec["bitmap.OfMany/asOf"] = func(a []V) string {
+		subs := make([][]int32, len(a[0].L))
+		for i, s := range a[0].L {
+			subs[i] = s.I32s()
+		}
+		sizes := a[1].I32s()
+		var all []int32
+		base := int32(0)
+		for i, e := range subs {
+			for _, p := range e {
+				all = append(all, base+p)
+			}
+			base += sizes[i]
+		}
+		x := c12Try(func() []uint64 { return bitmap.OfMany(subs, sizes) })
+		y := c12Try(func() []uint64 { return bitmap.Of(all, base) })
+		if x == y {
+			return "[1]"
+		}
+		return L("0", x, y)
+	}
+	// widening: NewBuilder(n) + one Extend per segment against OfMany: word for word, Offset = sum of sizes
+	Exec["bitmap.Builder/asOfMany"] = func(a []V) string {
+		b := bitmap.NewBuilder(a[0].I32())
+		subs := make([][]int32, len(a[1].L))
+		for i, s := range a[1].L {
+			subs[i] = s.I32s()
+		}
+		sizes := a[2].I32s()
+		tot := int32(0)
+		for i := range subs {
+			b.Extend(subs[i], sizes[i])
+			tot += sizes[i]
+		}
+		r := bitmap.OfMany(subs, sizes)
+		if U64s(r) == U64s(b.Words) && b.Offset == tot {
+			return "[1]"
+		}
+		return L("0", U64s(r), U64s(b.Words), I32(b.Offset))
+	}
+	// widening: the constructors composed with the readers of C01 / C13
+	Exec["bitmap.Of/query"] = func(a []V) string {
+		return c12Query(c12Of(a[0].I32s(), a[1].L), a[2].Bool(), a[3].I32(), a[4].I32())
+	}
+	Exec["bitmap.Builder/query"] = func(a []V) string {
+		b := bitmap.NewBuilder(a[0].I32())
+		for _, op := range a[1].L {
+			if op.L[0].Int() == 0 {
+				b.Extend(op.L[1].I32s(), op.L[2].I32())
+			} else {
+				b.Set(op.L[1].I32(), op.L[2].I32())
+			}
+		}
+		return c12Query(b.Words, a[2].Bool(), a[3].I32(), a[4].I32())
+	}
 	Register("C12", genC12)
+}
+
+// c12Try renders the result of f, or P if it panics
+func c12Try(f func() []uint64) (out string) {
+	defer func() {
+		if recover() != nil {
+			out = "P"
+		}
+	}()
+	return U64s(f())
+}
+
+func c12MaxInt(a, b int) int {
+	if a > b {
+		return a
+	}
+	return b
+}
+
+// c12Query: Rank64 and Rank128 (freshly built indexes) at i, NextOne and PrevOne on [i, e)
+func c12Query(r []uint64, tr bool, i, e int32) string {
+	c64, b64 := bitmap.Rank64(r, bitmap.IndexRank64(r, tr), i)
+	c128, b128 := bitmap.Rank128(r, bitmap.IndexRank128(r), i)
+	return L(L(I32(c64), I32(b64)), L(I32(c128), I32(b128)), I32(bitmap.NextOne(r, i, e)), I32(bitmap.PrevOne(r, i, e)))
+}
+
+// c12Range draws 0 <= i <= e <= nbits, i < nbits, 1 <= e (nbits >= 1), aimed at the positions in ps
+func c12Range(g *Gen, ps []int32, shift, nbits int) (int, int, string) {
+	i := g.R.Intn(nbits)
+	kind := "rnd"
+	if len(ps) > 0 && g.R.Intn(3) > 0 {
+		p := int(ps[g.R.Intn(len(ps))]) + shift + g.R.Pick(-1, 0, 0, 1)
+		if p >= 0 && p < nbits {
+			i = p
+			kind = "atpos"
+		}
+	} else if g.R.Intn(4) == 0 {
+		i = (i/64)*64 + g.R.Pick(0, 63)
+		if i >= nbits {
+			i = nbits - 1
+		}
+		kind = "edge"
+	}
+	lo := i
+	if lo < 1 {
+		lo = 1
+	}
+	e := g.R.Range(lo, nbits)
+	switch g.R.Intn(5) {
+	case 0:
+		e = nbits
+	case 1:
+		e = lo
+	case 2:
+		e = minInt(lo+g.R.Pick(1, 2, 63, 64, 65), nbits)
+	}
+	ek := "mid"
+	if e == nbits {
+		ek = "end"
+	} else if e <= i+1 {
+		ek = "tiny"
+	}
+	return i, e, kind + "/" + ek
+}
+
+// c12FmtArg builds the Go value described by (byte size, signedness, slice or single, values).
+func c12FmtArg(sz int, signed, slice bool, xs []V) interface{} {
+	s := func(i int) int64 { return xs[i].Z.Int64() }
+	u := func(i int) uint64 { return xs[i].Z.Uint64() }
+	n := len(xs)
+	if !slice {
+		switch {
+		case sz == 1 && signed:
+			return int8(s(0))
+		case sz == 1:
+			return uint8(u(0))
+		case sz == 2 && signed:
+			return int16(s(0))
+		case sz == 2:
+			return uint16(u(0))
+		case sz == 4 && signed:
+			return int32(s(0))
+		case sz == 4:
+			return uint32(u(0))
+		case sz == 8 && signed:
+			return int64(s(0))
+		case sz == 8:
+			return uint64(u(0))
+		}
+		return "x"
+	}
+	switch {
+	case sz == 1 && signed:
+		r := make([]int8, n)
+		for i := range r {
+			r[i] = int8(s(i))
+		}
+		return r
+	case sz == 1:
+		r := make([]uint8, n)
+		for i := range r {
+			r[i] = uint8(u(i))
+		}
+		return r
+	case sz == 2 && signed:
+		r := make([]int16, n)
+		for i := range r {
+			r[i] = int16(s(i))
+		}
+		return r
+	case sz == 2:
+		r := make([]uint16, n)
+		for i := range r {
+			r[i] = uint16(u(i))
+		}
+		return r
+	case sz == 4 && signed:
+		r := make([]int32, n)
+		for i := range r {
+			r[i] = int32(s(i))
+		}
+		return r
+	case sz == 4:
+		r := make([]uint32, n)
+		for i := range r {
+			r[i] = uint32(u(i))
+		}
+		return r
+	case sz == 8 && signed:
+		r := make([]int64, n)
+		for i := range r {
+			r[i] = int64(s(i))
+		}
+		return r
+	case sz == 8:
+		r := make([]uint64, n)
+		for i := range r {
+			r[i] = u(i)
+		}
+		return r
+	}
+	return make([]string, n)
+}
+
+// c12FmtVal draws a value of a sz-byte integer kind: boundaries, single bits, byte patterns, random.
+func c12FmtVal(g *Gen, sz int, signed bool) string {
+	bitsN := uint(8 * sz)
+	var u uint64
+	switch g.R.Intn(6) {
+	case 0:
+		cs := []uint64{0, 1, 0x80, 0xff, 0x0102, 0x8000, 0x01020408, 0x80000000, 1 << 63, ^uint64(0)}
+		u = cs[g.R.Intn(len(cs))]
+	case 1:
+		u = 1 << uint(g.R.Intn(int(bitsN)))
+	case 2:
+		u = ^(uint64(1) << uint(g.R.Intn(int(bitsN))))
+	default:
+		u = g.R.Words(1)[0]
+	}
+	if bitsN < 64 {
+		u &= 1<<bitsN - 1
+	}
+	if !signed {
+		return U(u)
+	}
+	// sign-extend from bitsN
+	v := int64(u<<(64-bitsN)) >> (64 - bitsN)
+	return I(v)
 }
 
 // c12Positions draws an ascending list of non-negative positions below limit (limit >= 1).
@@ -127,6 +364,94 @@ func c12Subs(subs [][]int32) string {
 		xs[i] = I32s(s)
 	}
 	return L(xs...)
+}
+
+// c12History draws NewBuilder(n) and 1..12 Extend/Set calls; returns n, the calls, the mode, the feature string,
+// and the number of bits the builder must cover (max of Offset and last set position + 1)
+func c12History(g *Gen) (int, []string, int, string, int, []int32) {
+	n := g.R.Pick(0, 0, 1, 63, 64, 100, 1000)
+	nops := g.R.Range(1, 12)
+	mode := g.R.Intn(3) // 0 extends only, 1 sets only, 2 mixed
+	var ops []string
+	var all []int32
+	off, lim := 0, 0
+	feat := map[string]bool{}
+	for o := 0; o < nops; o++ {
+		if mode == 0 || (mode == 2 && g.R.Intn(3) > 0) {
+			size := g.R.Pick(0, 0, 1, 5, 63, 64, 65, 100, 128, 300)
+			if g.R.Intn(3) == 0 {
+				size = g.R.Intn(260)
+			} else if g.R.Intn(10) == 0 {
+				size = g.R.Pick(1024, 1100, 2100) // relative positions with more than 10 bits
+			}
+			ps := []int32{}
+			if g.R.Intn(6) > 0 {
+				l := size
+				if l == 0 || g.R.Intn(5) == 0 {
+					l = size + g.R.Pick(1, 2, 64, 65, 300) // positions >= size
+				}
+				ps = c12Positions(g, g.R.Intn(5), l, g.R.Pick(1, 3, 8))
+			}
+			if len(ps) > 0 && int(ps[len(ps)-1]) >= size {
+				feat["over"] = true
+			}
+			if size == 0 {
+				feat["z"] = true
+			}
+			if len(ps) == 0 {
+				feat["e"] = true
+			}
+			for _, p := range ps {
+				all = append(all, int32(off)+p)
+				if off+int(p)+1 > lim {
+					lim = off + int(p) + 1
+				}
+			}
+			ops = append(ops, L("0", I32s(ps), Int(size)))
+			off += size
+		} else {
+			var p int
+			switch g.R.Intn(4) {
+			case 0:
+				p = off + g.R.Pick(-1, 0, 1, 63, 64, 65, 200)
+			case 1:
+				p = g.R.Intn(off + 1)
+			case 2:
+				p = 64*g.R.Intn(6) + g.R.Pick(0, 63)
+			default:
+				p = g.R.Intn(500)
+			}
+			if p < 0 {
+				p = 0
+			}
+			v := g.R.Pick(0, 1, 1, 1, 2, 3, -1, -2)
+			if p >= off {
+				feat["adv"] = true
+				off = p + 1
+			} else {
+				feat["below"] = true
+			}
+			if v&1 == 0 {
+				feat["v0"] = true
+			} else {
+				all = append(all, int32(p))
+			}
+			if p+1 > lim {
+				lim = p + 1
+			}
+			ops = append(ops, L("1", Int(p), Int(v)))
+		}
+		if off > lim {
+			lim = off
+		}
+	}
+	fs := []string{}
+	for _, f := range []string{"over", "z", "e", "adv", "below", "v0"} {
+		if feat[f] {
+			fs = append(fs, f)
+		}
+	}
+	return n, ops, mode, strings.Join(fs, "+"), lim, all
 }
 
 func genC12(g *Gen) {
@@ -271,81 +596,226 @@ func genC12(g *Gen) {
 		}
 		g.Stat(fmt.Sprintf("ofmany-seg%d", nseg))
 		g.Do("bitmap.OfMany", L(c12Subs(subs), I32s(sizes)), key)
+		g.Do("bitmap.Builder/asOfMany", L(Int(g.R.Pick(0, 0, 64, 1000)), c12Subs(subs), I32s(sizes)), key)
 	}
 
 	// (5) Builder histories: NewBuilder(n), then 1..12 calls of Extend(ps, size) / Set(p, v)
 	nb := g.N(1200, 30000)
 	for k := 0; k < nb; k++ {
-		n := g.R.Pick(0, 0, 1, 63, 64, 100, 1000)
-		nops := g.R.Range(1, 12)
-		mode := g.R.Intn(3) // 0 extends only, 1 sets only, 2 mixed
-		var ops []string
-		off := 0
-		feat := map[string]bool{}
-		for o := 0; o < nops; o++ {
-			if mode == 0 || (mode == 2 && g.R.Intn(3) > 0) {
-				size := g.R.Pick(0, 0, 1, 5, 63, 64, 65, 100, 128, 300)
-				if g.R.Intn(3) == 0 {
-					size = g.R.Intn(260)
-				}
-				ps := []int32{}
-				if g.R.Intn(6) > 0 {
-					lim := size
-					if lim == 0 || g.R.Intn(5) == 0 {
-						lim = size + g.R.Pick(1, 2, 64, 65, 300) // positions >= size
-					}
-					ps = c12Positions(g, g.R.Intn(5), lim, g.R.Pick(1, 3, 8))
-				}
-				if len(ps) > 0 && int(ps[len(ps)-1]) >= size {
-					feat["over"] = true
-				}
-				if size == 0 {
-					feat["z"] = true
-				}
-				if len(ps) == 0 {
-					feat["e"] = true
-				}
-				ops = append(ops, L("0", I32s(ps), Int(size)))
-				off += size
-			} else {
-				var p int
-				switch g.R.Intn(4) {
-				case 0:
-					p = off + g.R.Pick(-1, 0, 1, 63, 64, 65, 200)
-				case 1:
-					p = g.R.Intn(off + 1)
-				case 2:
-					p = 64*g.R.Intn(6) + g.R.Pick(0, 63)
-				default:
-					p = g.R.Intn(500)
-				}
-				if p < 0 {
-					p = 0
-				}
-				v := g.R.Pick(0, 1, 1, 1, 2, 3, -1, -2)
-				if p >= off {
-					feat["adv"] = true
-					off = p + 1
-				} else {
-					feat["below"] = true
-				}
-				if v&1 == 0 {
-					feat["v0"] = true
-				}
-				ops = append(ops, L("1", Int(p), Int(v)))
-			}
-		}
-		fs := []string{}
-		for _, f := range []string{"over", "z", "e", "adv", "below", "v0"} {
-			if feat[f] {
-				fs = append(fs, f)
-			}
-		}
+		n, ops, mode, fs, _, _ := c12History(g)
 		key := ""
-		if nops > 1 {
-			key = fmt.Sprintf("B/m%d/n%d/%s/ops%d", mode, minInt(n, 65), strings.Join(fs, "+"), (nops+3)/4)
+		if len(ops) > 1 {
+			key = fmt.Sprintf("B/m%d/n%d/%s/ops%d", mode, minInt(n, 65), fs, (len(ops)+3)/4)
 		}
 		g.Stat(fmt.Sprintf("builder-mode%d", mode))
 		g.Do("bitmap.Builder", L(Int(n), L(ops...)), key)
 	}
+
+	// (6) widening: every entry of the six mask tables, and the first indices outside
+	for i := -2; i <= 66; i++ {
+		key := fmt.Sprintf("Mask/%s", c13Off(i))
+		if i < 0 || i > 64 {
+			key = "Mask/outside"
+		}
+		g.Stat("mask-table")
+		g.Do("bitmap.Mask", L(Int(i)), key)
+		g.Do("bitmap.Bit", L(Int(i)), key)
+	}
+	g.Exhaust = append(g.Exhaust, "Mask/RMask[0..64], MaskUpto/RMaskUpto/Bit/RBit[0..63]: every entry, plus indices -2,-1 and 64/65,66 (panic)")
+
+	// (7) widening: bitmap.Fmt. Every uint8 / int8 value; every integer kind x single / slice of 0..5 values
+	// (boundaries, single bits, complements, random); []uint64 built by Of; non-integer types (panic, "" for an empty slice)
+	fm := func(sz int, signed, slice bool, vals []string, bucket string) {
+		key := ""
+		if len(vals) > 0 && (sz == 1 || sz == 2 || sz == 4 || sz == 8) {
+			key = fmt.Sprintf("Fmt/sz%d/s%v/sl%v/n%d", sz, signed, slice, minInt(len(vals), 3))
+		} else if sz != 1 && sz != 2 && sz != 4 && sz != 8 {
+			key = fmt.Sprintf("Fmt/notint/sl%v/n%d", slice, minInt(len(vals), 2))
+		}
+		g.Stat(bucket)
+		g.Do("bitmap.Fmt/c12", L(Int(sz), B(signed), B(slice), L(vals...)), key)
+	}
+	for b := 0; b < 256; b++ {
+		fm(1, false, false, []string{Int(b)}, "fmt-byte")
+		fm(1, true, true, []string{Int(b - 128)}, "fmt-byte")
+	}
+	g.Exhaust = append(g.Exhaust, "Fmt: every uint8 value and every int8 value (the byte loop: Reverse8 + %08b on all 256 bytes)")
+	nf := g.N(600, 15000)
+	for k := 0; k < nf; k++ {
+		sz := g.R.Pick(1, 2, 4, 8)
+		signed := g.R.Bool()
+		slice := g.R.Intn(3) > 0
+		n := 1
+		if slice {
+			n = g.R.Range(0, 5)
+		}
+		vals := make([]string, n)
+		for i := range vals {
+			vals[i] = c12FmtVal(g, sz, signed)
+		}
+		fm(sz, signed, slice, vals, "fmt-int")
+	}
+	for k := 0; k < g.N(150, 4000); k++ {
+		ps := c12Positions(g, g.R.Intn(5), g.R.Pick(70, 200, 400), g.R.Pick(1, 3, 10))
+		ws := bitmap.Of(ps)
+		vals := make([]string, len(ws))
+		for i, w := range ws {
+			vals[i] = U(w)
+		}
+		fm(8, false, true, vals, "fmt-of")
+	}
+	for _, sz := range []int{0, 3, 16} {
+		fm(sz, false, false, []string{"1"}, "fmt-notint")
+		fm(sz, false, true, []string{}, "fmt-notint")
+		fm(sz, false, true, []string{"1"}, "fmt-notint")
+		fm(sz, true, true, []string{"1", "2"}, "fmt-notint")
+	}
+
+	// (8) widening: queries on built bitmaps. Of(ps, n) then Rank64 / Rank128 / NextOne / PrevOne; the same on the
+	// Words of a Builder history. The number of bits is computed here from the statement (not from the result).
+	nq := g.N(1500, 40000)
+	for k := 0; k < nq; k++ {
+		style := g.R.Intn(5)
+		ps := c12Positions(g, style, g.R.Pick(70, 200, 700, 2500), g.R.Pick(1, 3, 10, 40))
+		os := opts(ps)
+		o := os[g.R.Intn(len(os))]
+		nbits := 0
+		if o != "[]" {
+			fmt.Sscanf(o, "[%d]", &nbits)
+		}
+		if len(ps) > 0 && int(ps[len(ps)-1])+1 > nbits {
+			nbits = int(ps[len(ps)-1]) + 1
+		}
+		if nbits <= 0 {
+			continue
+		}
+		nbits = (nbits + 63) / 64 * 64
+		i, e, rk := c12Range(g, ps, 0, nbits)
+		key := ""
+		if len(ps) > 0 {
+			key = fmt.Sprintf("OQ/%s/nw%d/np%d", rk, minInt(nbits/64, 4), minInt(len(ps), 3))
+		}
+		g.Stat("of-query")
+		g.Do("bitmap.Of/query", L(I32s(ps), o, B(g.R.Bool()), Int(i), Int(e)), key)
+	}
+	for k := 0; k < g.N(800, 20000); k++ {
+		n, ops, mode, fs, lim, all := c12History(g)
+		if lim <= 0 {
+			continue
+		}
+		i, e, rk := c12Range(g, all, 0, lim)
+		key := ""
+		if len(all) > 0 {
+			key = fmt.Sprintf("BQ/m%d/%s/%s", mode, fs, rk)
+		}
+		g.Stat("builder-query")
+		g.Do("bitmap.Builder/query", L(Int(n), L(ops...), B(g.R.Bool()), Int(i), Int(e)), key)
+	}
+
+	// (9) widening: OfMany against Of on the shifted concatenation, positions >= size in ANY segment (the
+	// concatenation need not be ascending and Of may panic); sizes >= 0, every segment ascending and non-negative
+	for k := 0; k < g.N(1200, 30000); k++ {
+		nseg := g.R.Range(0, 5)
+		subs := make([][]int32, nseg)
+		sizes := make([]int32, nseg)
+		over := false
+		for s := 0; s < nseg; s++ {
+			size := g.R.Pick(0, 1, 5, 63, 64, 65, 100, 128)
+			sizes[s] = int32(size)
+			subs[s] = []int32{}
+			if g.R.Intn(4) > 0 {
+				l := size
+				if l <= 0 || g.R.Intn(3) == 0 {
+					l = c12MaxInt(size, 0) + g.R.Pick(1, 2, 64, 65, 200) // positions >= size, in any segment
+					over = true
+				}
+				subs[s] = c12Positions(g, g.R.Intn(5), l, g.R.Pick(1, 3, 6))
+			}
+		}
+		key := ""
+		if nseg > 1 {
+			key = fmt.Sprintf("OMA/seg%d/over%v", nseg, over)
+		}
+		g.Stat("ofmany-asof")
+		g.Do("bitmap.OfMany/asOf", L(c12Subs(subs), I32s(sizes)), key)
+	}
+
+	// (10) exhaustive small sub-domains
+	// (a) Get/Get1 at every position inside, SafeGet/SafeGet1 at every i in [-130, 64*len+130], on six small bitmaps
+	for _, ws := range [][]uint64{{}, {1}, {1 << 63}, {5, 1 << 63}, {^uint64(0), 0}, {0, 0x8000000000000001, 6}} {
+		n := 64 * len(ws)
+		for i := -130; i <= n+130; i++ {
+			key := "SafeX/out"
+			if i >= 0 && i < n {
+				key = fmt.Sprintf("GetX/off%s", c13Off(i))
+				g.Do("bitmap.Get", L(U64s(ws), Int(i)), key)
+			}
+			g.Stat("get-exh")
+			g.Do("bitmap.SafeGet", L(U64s(ws), Int(i)), key)
+		}
+	}
+	g.Exhaust = append(g.Exhaust, "Get/Get1 at every inside position and SafeGet/SafeGet1 at every i in [-130, 64*len+130] on 6 bitmaps of 0..3 words")
+	// (b) Builder: every history of at most 2 (thorough: 3) calls over a 10-call alphabet, NewBuilder(0) and NewBuilder(64)
+	balpha := []string{L("0", "[]", "0"), L("0", "[]", "1"), L("0", "[0]", "1"), L("0", "[63]", "64"), L("0", "[64]", "64"),
+		L("0", "[0,1]", "0"), L("1", "0", "1"), L("1", "63", "1"), L("1", "64", "0"), L("1", "64", "1")}
+	maxLen := 2
+	if g.Thorough {
+		maxLen = 3
+	}
+	var hist func(prefix []string)
+	hist = func(prefix []string) {
+		if len(prefix) > 0 {
+			for _, n := range []int{0, 64} {
+				g.Stat("builder-exh")
+				g.Do("bitmap.Builder", L(Int(n), L(prefix...)), fmt.Sprintf("BX/len%d", len(prefix)))
+			}
+		}
+		if len(prefix) == maxLen {
+			return
+		}
+		for _, c := range balpha {
+			hist(append(append([]string{}, prefix...), c))
+		}
+	}
+	hist(nil)
+	g.Exhaust = append(g.Exhaust, fmt.Sprintf("Builder: every history of 1..%d calls over {Extend([],0), Extend([],1), Extend([0],1), Extend([63],64), Extend([64],64), Extend([0,1],0), Set(0,1), Set(63,1), Set(64,0), Set(64,1)} from NewBuilder(0) and NewBuilder(64)", maxLen))
+	// (c) OfMany: every list of at most 3 segments over a 7-segment alphabet; all of them through OfMany/asOf, the
+	// ones whose shifted concatenation is ascending also through OfMany
+	type seg struct {
+		ps   []int32
+		size int32
+	}
+	salpha := []seg{{nil, 0}, {nil, 1}, {[]int32{0}, 1}, {[]int32{0}, 64}, {[]int32{63}, 64}, {[]int32{0, 63}, 64}, {[]int32{64}, 64}}
+	var segs func(prefix []seg)
+	segs = func(prefix []seg) {
+		subs := make([][]int32, len(prefix))
+		sizes := make([]int32, len(prefix))
+		asc, last, base := true, int32(-1), int32(0)
+		for i, sg := range prefix {
+			subs[i] = append([]int32{}, sg.ps...)
+			sizes[i] = sg.size
+			for _, p := range sg.ps {
+				if base+p < last {
+					asc = false
+				}
+				last = base + p
+			}
+			base += sg.size
+		}
+		key := fmt.Sprintf("OMX/seg%d/asc%v", len(prefix), asc)
+		g.Stat("ofmany-exh")
+		g.Do("bitmap.OfMany/asOf", L(c12Subs(subs), I32s(sizes)), key)
+		if asc {
+			g.Do("bitmap.OfMany", L(c12Subs(subs), I32s(sizes)), key)
+			g.Do("bitmap.Builder/asOfMany", L("0", c12Subs(subs), I32s(sizes)), key)
+		}
+		if len(prefix) == 3 {
+			return
+		}
+		for _, c := range salpha {
+			segs(append(append([]seg{}, prefix...), c))
+		}
+	}
+	segs(nil)
+	g.Exhaust = append(g.Exhaust, "OfMany: every list of 0..3 segments over {([],0), ([],1), ([0],1), ([0],64), ([63],64), ([0,63],64), ([64],64)}")
 }
